@@ -86,9 +86,9 @@ Definition expected (c : cli) (w : world) : option (list result) :=
 
 Definition ids (rs : list result) : list N := List.map r_id rs.
 
-(* Encode returned nil for every result *)
-Definition all_encoded (fid : N) (nul : bool) (rs : list result) : bool :=
-  forallb (fun r => match enc_class fid nul (r_node r) with EncErr => false | EncOk _ => true end) rs.
+(* Encode returned nil for every result and the flush of its bytes to the output succeeded *)
+Definition all_encoded (fl : N -> bool) (fid : N) (nul : bool) (rs : list result) : bool :=
+  forallb (fun r => match enc_class fid nul (r_node r) with EncErr => false | EncOk _ => fl (r_id r) end) rs.
 (* ... and really wrote every result *)
 Definition all_complete (fid : N) (nul : bool) (rs : list result) : bool :=
   forallb (fun r => match enc_class fid nul (r_node r) with EncOk true => true | _ => false end) rs.
